@@ -2,6 +2,7 @@ mod c10;
 mod c11;
 mod c13;
 mod c18;
+mod c20;
 mod pool;
 mod report;
 mod runner;
@@ -29,6 +30,13 @@ fn main() {
             let tier = args.get(2).map(|s| s.as_str()).unwrap_or("quick");
             let replay = args.iter().position(|a| a == "--replay").and_then(|i| args.get(i + 1)).map(|s| s.as_str());
             let code = if args[1] == "C10" { c10::main_c10(&env, tier, simcore::rng::verif_seed(), replay) } else { c11::main_c11(&env, tier, simcore::rng::verif_seed(), replay) };
+            env.cleanup();
+            std::process::exit(code);
+        }
+        Some("C20") => {
+            let tier = args.get(2).map(|s| s.as_str()).unwrap_or("quick");
+            let replay = args.iter().position(|a| a == "--replay").and_then(|i| args.get(i + 1)).map(|s| s.as_str());
+            let code = c20::main_c20(&env, tier, simcore::rng::verif_seed(), replay);
             env.cleanup();
             std::process::exit(code);
         }
